@@ -116,4 +116,11 @@ Fixpoint horizon_cost (Rf : list (list T)) (x : list T) (us : list (list T)) : T
   | u :: us' => nadd (stage_cost x u)
                      (nmul beta (horizon_cost Rf (vadd n (mvmul n n A x) (mvmul n k B u)) us'))
   end.
+(* controls generated without noise by the feedback rules Fs (given in time order) from state x *)
+Fixpoint closed_loop_controls (Fs : list (list (list T))) (x : list T) : list (list T) :=
+  match Fs with
+  | [] => []
+  | F :: Fs' => let u := vneg k (mvmul k n F x) in
+                u :: closed_loop_controls Fs' (vadd n (mvmul n n A x) (mvmul n k B u))
+  end.
 End LQ.
